@@ -363,3 +363,11 @@ unsigned char *HMAC(const EVP_MD *evp_md, const void *key, int key_len, const un
 	*md_len = n;
 	return md;
 }
+
+/* ---- error queue: per-thread state that OUTLIVES the call that filled it.  An earlier, unrelated
+ * failure (another key, another token) may have left entries behind: what a peek returns is
+ * arbitrary.  libjwt never clears the queue. ---- */
+unsigned long ERR_peek_error(void) { return nondet_ulong(); }
+unsigned long ERR_peek_last_error(void) { return nondet_ulong(); }
+unsigned long ERR_get_error(void) { return nondet_ulong(); }
+void ERR_clear_error(void) { }
